@@ -640,7 +640,7 @@ func init() {
 		},
 		Real:        append([]string{"ratelimit.Listener / ratelimit.Conn (x/time/rate limiter shared by the listener's connections), connfu wrapper configuration, SizeSuffix"}, realForwarder...),
 		Stub:        stubCommon,
-		Rule:        "read and write limits drawn independently from {none, 16 KiB/s .. 16 MiB/s} (also rates below the size of one copy chunk); 1-7 (sometimes 12-27) connections sharing the listener, each a download (Content-Length or chunked), upload or tunnel in one direction, 16 MiB (thorough: sometimes 48 MiB) per limited direction; ample link capacity and no injected delay, so only the limiter moves the fake clock. Oracle: burst := bytes that crossed before the clock first moved; throttling must happen at all; every window after that carries at most rate x time + 64 KiB per connection (summed over all connections: a shared bucket); an unlimited direction takes zero simulated time; payload byte-exact.",
+		Rule:        "read and write limits drawn independently from {none, 16 KiB/s .. 16 MiB/s} (also rates below the size of one copy chunk); 1-7 (sometimes 12-27) connections sharing the listener, each a download (Content-Length or chunked), upload or tunnel in one direction, 16 MiB (thorough: sometimes 48 MiB) per limited direction; ample link capacity and no injected delay, so only the limiter moves the fake clock. Oracle: burst := bytes that crossed before the clock first moved; throttling must happen at all; every window after that carries at most rate x time + 64 KiB per connection (summed over all connections: a shared bucket); an unlimited direction takes zero simulated time; payload byte-exact. Later additions: PROXY-protocol listener, swarms of short connections, one tunnel busy in both directions with one direction limited.",
 		Assumptions: []string{"the burst allowance is not documented; it is learnt per run as the bytes that crossed before the clock first moved and must be smaller than the transfer", "one write per connection may be sent on credit before the limiter waits (64 KiB slack per connection)"},
 	})
 }
